@@ -148,7 +148,12 @@ def r_deg(E):
                     res.samples.append({"driver": drv, "target": f"{c}.{x}", "expected": "independent",
                                         "verdict": "driver not in the transitive read set"})
                 continue
+            n_unknown = len(D.unknown)
             got = scalar(D.deg_of(c, x))
+            if got != exp and (D.unknown and True):
+                # the cone of this row contains a construct the interpreter could not follow: the derived degree means
+                # nothing — undecided (reported below), never a finding
+                continue
             if got != exp:
                 res.findings.append(Finding(
                     "R-DEG", f"deg[{drv}]({c}.{x}) expected {exp}",
